@@ -21,7 +21,10 @@ META = {
     'outside': ['worker processes (C15 disjoint-window argument)', 'allocator behaviour itself'],
 }
 
-preload = C18.preload
+def preload():
+    C18.preload()
+    from harness import C04
+    C04.preload()
 
 
 def scan_sites():
@@ -53,7 +56,7 @@ def scan_sites():
     return sites
 
 
-HARNESSED = {'shannon_entropy', 'mutual_information', 'assign_to_nearest_center', 'distribute_frame'}
+HARNESSED = {'shannon_entropy', 'mutual_information', 'assign_to_nearest_center', 'distribute_frame', '_row_normalize'}
 
 
 def jobs(tier):
@@ -68,6 +71,11 @@ def jobs(tier):
             add('entropy_job', 'shannon_entropy[n=%d,zeros=%d,normalize=%s]' % (n, z, norm), n=n, zeros=z, normalize=norm)
     add('mi_garbage_job', 'mutual_information[all-pairs-observed]', empty_pair=False)
     add('mi_garbage_job', 'mutual_information[one-pair-unobserved]', empty_pair=True)
+    for n in (2, 3):
+        for which in ('normalize', 'transpose'):
+            J.append(dict(module='harness.C04', func='builder_job', name='%s[n=%d,zero rows allowed]' % (which, n),
+                          kwargs=dict(which=which, n=n, eq=False, zero_rows=True), sig_prefix='uninit', deadline_s=250 if q else 1500,
+                          timeout_ms=30000 if q else 120000, tol=1e-5))
     from harness import kernels
     J += kernels.jobs_for('C19', tier)
     return J
